@@ -160,6 +160,7 @@ BASE = [int, float, bool, str]
 class GOpts(object):
     def __init__(self, **kw):
         self.untyped = False       # constructs the inferrer cannot type (known finding shapes)
+        self.loopmut = False       # start with: loop { if-without-else / inner loop { x = <other type> } ; read x }
         self.nested = True
         self.max_stmts = 12
         self.__dict__.update(kw)
@@ -338,6 +339,8 @@ class Gen(object):
         kinds = ['assign'] * 6 + ['unpack'] * 2 + ['expr'] + ['chain'] * 3
         if depth < 2 and self.budget > 0:
             kinds += ['if'] * 3 + ['while'] + ['for']
+        if depth == 0 and not infun and not self.inloop:
+            kinds += ['loopmut']
         if self.o.nested and not infun and depth == 0 and self.nfun < 2:
             kinds += ['def'] * 2 + ['condef'] * 2
         if self.funs and not infun:
@@ -471,6 +474,8 @@ class Gen(object):
             return env
         if k == 'condef':
             return self.condef(ind, env)
+        if k == 'loopmut':
+            return self.loopmut(ind, env)
         if k == 'lcall':
             g = r.choice(sorted(self.funs))
             npar, rebinds = self.funs[g]
@@ -514,6 +519,55 @@ class Gen(object):
             for nl in rebinds:
                 env[nl] = {typing.Any}
             return env
+        return env
+
+    def loopmut(self, ind, env):
+        """x bound before a loop; inside the loop a branching node WITHOUT else (if / inner for / inner while)
+        whose body re-binds x with another type computed from x; x is read after the branch (next iteration:
+        the changed type must have travelled around the back edge and through the join)."""
+        r = self.r
+        env = dict(env)
+        x, y = r.sample(VARS, 2)
+        init, t0 = r.choice([('1', int), ('5', int), ('G_INT', int), ('True', bool), ('0.5', float)])
+        self.emit(ind, '%s = %s' % (x, init))
+        self.nloop += 1
+        n = 'n%d' % self.nloop
+        trips = r.choice([2, 3])
+        if r.random() < 0.6:
+            self.emit(ind, '%s = 0' % n)
+            self.emit(ind, 'while %s < %d:' % (n, trips))
+            self.emit(ind + 1, '%s = %s + 1' % (n, n))
+            env[n] = {int}
+        else:
+            self.emit(ind, 'for %s in (%s):' % (n, ', '.join(['1', '2', '3'][:trips]) + ','))
+        steps = [('(%s * 0.5)', float), ('tostr(%s)', str), ('(%s == 0)', bool), ('(%s, G_STR)[1]', str),
+                 ('pick(%s, G_STR, G_FLT)', None)]
+        if t0 is float:
+            steps = steps[1:]
+        form, t1 = r.choice(steps)
+        before = r.random() < 0.4
+        if before:
+            self.emit(ind + 1, '%s = %s' % (y, x))
+        c = r.random()
+        if c < 0.5:
+            self.emit(ind + 1, 'if %s:' % r.choice(['True', 'a', 'G_INT', '(%s == %s)' % (n, n), '(b, c)']))
+        elif c < 0.8:
+            self.nloop += 1
+            self.emit(ind + 1, 'for q%d in (1,):' % self.nloop)
+        else:
+            self.nloop += 1
+            m = 'n%d' % self.nloop
+            self.emit(ind + 1, '%s = 0' % m)
+            self.emit(ind + 1, 'while %s < 1:' % m)
+            self.emit(ind + 2, '%s = %s + 1' % (m, m))
+        self.emit(ind + 2, '%s = %s' % (x, form % x))
+        if not before or r.random() < 0.5:
+            self.emit(ind + 1, '%s = %s' % (y, x))
+        if r.random() < 0.5:
+            self.emit(ind + 1, '(%s, %s)' % (x, y))
+        ts = {t0, str, float, bool} if t1 is None else ({t0, t1} if t1 is not str or 'tostr' in form or True else {t0, t1})
+        env[x] = set(ts) | {str}
+        env[y] = set(env[x])
         return env
 
     def emit_def(self, ind, g, npar, rebinds, pname):
@@ -756,6 +810,9 @@ class Gen(object):
             self.emit(1, '%s = %s' % (v, e))
             env[v] = t
             self.defined_outer.add(v)
+        if self.o.loopmut:
+            self.force = ['loopmut']
+            env = self.stmt(1, env, 0, False)
         if self.o.nested and self.r.random() < 0.8:
             # a local function, called right away and again later, in most programs of the nested streams
             if self.r.random() < 0.4:
